@@ -332,6 +332,35 @@ def harness_dir():
     return d
 
 
+def harness_members(hdir):
+    """Workspace members = crate directories that are complete enough for cargo to load (a half-created crate
+    of one check must not break every other check's build).  harness/Cargo.toml is rewritten when the set changes."""
+    cdir = os.path.join(hdir, "crates")
+    mem = []
+    for d in sorted(os.listdir(cdir)):
+        p = os.path.join(cdir, d)
+        if not os.path.exists(os.path.join(p, "Cargo.toml")):
+            continue
+        if any(os.path.exists(os.path.join(p, x)) for x in ("src/main.rs", "src/lib.rs", "src/bin")) or \
+                "[[bin]]" in open(os.path.join(p, "Cargo.toml")).read() or "[lib]" in open(os.path.join(p, "Cargo.toml")).read():
+            mem.append("crates/" + d)
+    txt = """[workspace]
+resolver = "2"
+members = [%s]
+
+[workspace.package]
+edition = "2021"
+version = "0.0.0"
+
+[profile.dev]
+opt-level = 1
+debug = false
+""" % ", ".join('"%s"' % m for m in mem)
+    f = os.path.join(hdir, "Cargo.toml")
+    if not os.path.exists(f) or open(f).read() != txt:
+        open(f, "w").write(txt)
+
+
 def cargo_build(package, hook=False, features=None, release=False, timeout=3000, bin=None, extra_rustflags=""):
     """Build a harness package against /repo's working tree.  Returns (ok, exe path, log)."""
     hdir = harness_dir()
@@ -353,6 +382,7 @@ def cargo_build(package, hook=False, features=None, release=False, timeout=3000,
     if flags.strip():
         env["RUSTFLAGS"] = flags.strip()
     with Lock("cargo" + ("-hook" if hook else "") + os.path.basename(hdir)):
+        harness_members(hdir)
         rc, out = sh(cmd, cwd=hdir, timeout=timeout, env=env)
     exe = os.path.join(tdir, "release" if release else "debug", bin or package)
     return rc == 0, exe, out
